@@ -226,7 +226,7 @@ class C18(Prop):
             'variant of it (string prefix flipped, one name/number replaced), usually the same kind of call, compared with the pristine process only. '
             'Non-trivial: schedule with >=3 context switches while >=2 threads are inside parse/walk/tokenize; light case: two calls of one kind with different texts. Distinct by (calls, schedule).')
     assumptions = ['interleavings are sampled at source-line granularity, never enumerated; races inside one line are invisible to the baton scheduler']
-    budgets = {'quick': 3200, 'thorough': 80000}
+    budgets = {'quick': 2400, 'thorough': 80000}
     time_caps = {'quick': 150, 'thorough': 1500}
     shrink_fields = ('calls', 'schedule')
     min_nontrivial_fraction = 0.2
